@@ -26,15 +26,15 @@
   * §4  why euclid's `angle_from_x_axis` must not be used there: `fast_atan2_not_exact_witness`,
         `fast_atan2_diagonal_witness`.
 
-  History.  Until /repo a39176c6 `from_svg_arc` used euclid's polynomial `fast_atan2`; the arc
+  History.  Until /repo efc24b99 `from_svg_arc` used euclid's polynomial `fast_atan2`; the arc
   then missed the given points by up to 2·10⁻⁴·radius (f64: from (1000,1000) to (−1000,1000),
   r 1500, rot 0.3, large, ccw → `arc.to()` = (−1000.112, 1000.100)); `svg_arc_endpoints` was a
-  theorem about the algorithm only.  Until /repo a403d79f the quadratic control point came from
+  theorem about the algorithm only.  Until /repo 863c17b2 the quadratic control point came from
   `Line::intersection` of the end tangents with an absolute parallelism threshold
   (`|rx·ry·sin step| ≤ S::EPSILON` ⇒ ctrl = from: f32 radii (0.01,0.01), sweep π/2 → two chords,
   mid points at 0.943·r; formerly `quad_ctrl_tiny_radii_witness`) and cancellation on absolute
   positions (f32 centre 0, r 100, start 0.3, sweep 10⁻⁶ → ctrl 5.5 units from a 10⁻⁴ long arc).
-  Until /repo 20bcfb88 / 8ce8d2e3 `WithSvg::arc` recomputed the start angle as a polar angle /
+  Until /repo 20bcfb88 / 40e30eb0 `WithSvg::arc` recomputed the start angle as a polar angle /
   with `fast_atan2`.  The oracle keeps the classes of these (now fixed) findings active.
 
   Not theorems (left to the oracle, named gaps): the distance between the Bézier pieces and the
@@ -386,7 +386,7 @@ theorem svg_arc_radii (ang : P K → K) (a : SvgArc K) :
 /-- The laws of `sqrt`, `sin`, `cos`, `%` and of the angle function `ang` used by the conversion
 theorems.  The code's angle function is `exactAngle v = atan2(v.y, v.x)`; `Real.sqrt`, `Real.sin`,
 `Real.cos`, C's `fmod` and `atan2 = Complex.arg` satisfy the laws (`exactTrig_real`).  euclid's
-`fast_atan2`, which the code used until /repo a39176c6, does NOT satisfy `angle_exact`
+`fast_atan2`, which the code used until /repo efc24b99, does NOT satisfy `angle_exact`
 (`fast_atan2_not_exact_witness`). -/
 structure ExactTrig (ang : P K → K) : Prop where
   sqrt_nonneg : ∀ x : K, 0 ≤ x → 0 ≤ Transc.sqrt x
@@ -811,7 +811,7 @@ octant).  euclid's polynomial (`Vector2D::angle_from_x_axis`, `angle_to`) gives
 `0.46364… + 0.32166… = 0.78530…` on the left and `0.78519…` on the right: it is not additive, so
 it is not `(cos, sin)`-exact and does not satisfy `ExactTrig.angle_exact`.  This is why
 `Arc::from_svg_arc` (and `WithSvg::arc`) must not take their angles with `angle_from_x_axis`, as
-they did until /repo a39176c6 / 8ce8d2e3: the arc then missed its end points by up to
+they did until /repo efc24b99 / 40e30eb0: the arc then missed its end points by up to
 2·10⁻⁴·radius (former finding C13-fast-atan2-endpoint-drift; the oracle class stays active). -/
 theorem fast_atan2_not_exact_witness :
     fastAtan2 (1 : F) 2 + fastAtan2 (1 : F) 3 ≠ fastAtan2 (1 : F) 1
